@@ -72,8 +72,51 @@ def _in_order(fn):
 
 
 def _content_writer(pkg):
-    """BaseConfiguration.content with the _fill_* style helpers it may have been split into put back"""
-    return pkg.expanded("BaseConfiguration", "content")
+    """BaseConfiguration.content with the _fill_* style helpers it may have been split into put back; a table of entries computed from a
+    literal table of the function (`{f"num_of_{k}": n for k, n in sizes.items()}`) written out as the display it equals, and the loops
+    over it unrolled -- every `table[key] = value` of the writer then stands in the function with its literal key"""
+    cache = pkg.__dict__.setdefault("_content_writer", {})
+    if "fn" in cache:
+        return cache["fn"]
+    import copy
+    fn = pkg.expanded("BaseConfiguration", "content")
+    try:
+        from ..normalize import unroll_static_loops, _Subst, _ConstFStr
+        stores = {}
+        for x in ast.walk(fn):
+            if isinstance(x, ast.Name) and isinstance(x.ctx, (ast.Store, ast.Del)):
+                stores[x.id] = stores.get(x.id, 0) + 1
+        lits = {st.targets[0].id: st.value for st in fn.body if isinstance(st, ast.Assign) and len(st.targets) == 1 and isinstance(st.targets[0], ast.Name)
+                and stores.get(st.targets[0].id) == 1 and isinstance(st.value, ast.Dict) and st.value.keys and all(isinstance(k, ast.Constant) for k in st.value.keys)}
+        changed = False
+        new_body = []
+        for st in fn.body:
+            v = st.value if isinstance(st, ast.Assign) and len(st.targets) == 1 and isinstance(st.targets[0], ast.Name) else None
+            if isinstance(v, ast.DictComp) and len(v.generators) == 1 and not v.generators[0].ifs and stores.get(st.targets[0].id) == 1:
+                g = v.generators[0]
+                it = g.iter
+                if isinstance(it, ast.Call) and isinstance(it.func, ast.Attribute) and it.func.attr == "items" and not it.args and isinstance(it.func.value, ast.Name) \
+                        and it.func.value.id in lits and isinstance(g.target, ast.Tuple) and len(g.target.elts) == 2 and all(isinstance(e, ast.Name) for e in g.target.elts):
+                    src = lits[it.func.value.id]
+                    kn, vn = g.target.elts[0].id, g.target.elts[1].id
+                    keys, vals = [], []
+                    for k_, v_ in zip(src.keys, src.values):
+                        m = {kn: k_, vn: v_}
+                        keys.append(_ConstFStr().visit(_Subst(m).visit(copy.deepcopy(v.key))))
+                        vals.append(_Subst(m).visit(copy.deepcopy(v.value)))
+                    if all(isinstance(k_, ast.Constant) for k_ in keys):
+                        st = ast.copy_location(ast.Assign(targets=[ast.Name(id=st.targets[0].id, ctx=ast.Store())], value=ast.Dict(keys=keys, values=vals)), st)
+                        changed = True
+            new_body.append(st)
+        if changed:
+            fn = copy.deepcopy(pkg.expanded("BaseConfiguration", "content"))
+            fn.body = [copy.deepcopy(x) for x in new_body]
+            ast.fix_missing_locations(fn)
+            unroll_static_loops(fn)
+    except (RecursionError, ImportError, AttributeError, TypeError):
+        fn = pkg.expanded("BaseConfiguration", "content")
+    cache["fn"] = fn
+    return fn
 
 
 def _render_handle(pkg):
@@ -1485,6 +1528,7 @@ MUTANTS = [
     {"name": "example-case-table-unknown-method", "edits": [{"file": EXAMPLE, "old": '    def __init__(self):\n        super(ExampleCommand, self).__init__()\n', "new": '    _ALL = ("dense", "sparse", "cusparse", "rosenbrock4")\n    _CASES = (\n        ("empty", _ALL),\n        ("minimal", _ALL),\n        ("primordial", _ALL),\n        ("deuterium", _ALL),\n        ("cloud", ("dense", "sparse", "rosenbrock4")),\n        ("ism", ("dense", "sparse", "cusparse", "bdf")),\n    )\n\n    def __init__(self):\n        super(ExampleCommand, self).__init__()\n'}, {"file": EXAMPLE, "old": '        networklist = [\n            "empty/dense",\n            "empty/sparse",\n            "empty/cusparse",\n            "empty/rosenbrock4",\n            "minimal/dense",\n            "minimal/sparse",\n            "minimal/cusparse",\n            "minimal/rosenbrock4",\n            "primordial/dense",\n            "primordial/sparse",\n            "primordial/cusparse",\n            "primordial/rosenbrock4",\n            "deuterium/dense",\n            "deuterium/sparse",\n            "deuterium/cusparse",\n            "deuterium/rosenbrock4",\n            "cloud/dense",\n            "cloud/sparse",\n            "cloud/rosenbrock4",\n            "ism/dense",\n            "ism/sparse",\n            "ism/cusparse",\n        ]\n', "new": '        networklist = [\n            "/".join((ex_, how_))\n            for ex_, hows_ in self._CASES\n            for how_ in hows_\n        ]\n'}], "rules": ["R5"]},
     {"name": "writer-update-forgets-method", "file": CONF, "old": '        odesolver = content["ODEsolver"]\n        odesolver["solver"] = self._solver\n        odesolver["device"] = self._device\n        odesolver["method"] = self._method\n', "new": '        content["ODEsolver"].update({"solver": self._solver, "device": self._device})\n', "rules": ["R1"]},
     # hardening wave 3
+    {"name": "solver-table-comprehension-wrong-key", "file": CONF, "old": '        odesolver["solver"] = self._solver\n        odesolver["device"] = self._device\n', "new": '        chosen = {"solver": self._solver, "device": self._device}\n        entries = {f"ode_{k}": v for k, v in chosen.items()}\n        for key, val in entries.items():\n            odesolver[key] = val\n', "rules": ["R1"]},
     {"name": "input-stage-filters-required-species", "file": CONF, "old": "        self._extraspecies = required_species.copy() if required_species else []\n", "new": "        self._extraspecies = [s for s in (required_species or []) if s not in self._allowedspecies]\n", "rules": ["R13"]},
     {"name": "input-stage-dedups-formats", "file": CONF, "old": "        self._formats = formats.copy() if formats else []\n", "new": "        self._formats = list(dict.fromkeys(formats)) if formats else []\n", "rules": ["R13"]},
     {"name": "ode-modifier-dependencies-deduplicated", "file": INIT, "old": '                rdep = rdep.replace("[", "").replace("]", "").strip().split()\n', "new": '                rdep = list(dict.fromkeys(rdep.replace("[", "").replace("]", "").strip().split()))\n', "rules": ["R7"]},
@@ -1508,6 +1552,8 @@ BENIGN = [
     {"name": "example-pairs-through-starmap", "edits": [
         {"file": EXAMPLE, "old": "import shutil\n", "new": "import shutil\nfrom itertools import starmap\n"},
         {"file": EXAMPLE, "old": 'bindingstr = ",".join(f"{s}={sv}" for s, sv in binding.items())', "new": 'bindingstr = ",".join(starmap("{}={}".format, binding.items()))'}]},
+    {"name": "summary-from-comprehension-over-table", "file": CONF, "old": '        summary["list_of_elements"] = self._network_elements\n        summary["list_of_species"] = self._network_species\n',
+     "new": '        named = {"elements": self._network_elements, "species": self._network_species}\n        entries = {f"list_of_{grp}": names for grp, names in named.items()}\n        for key, names in entries.items():\n            summary[key] = names\n'},
     {"name": "summary-from-literal-table", "file": CONF, "old": '        summary["list_of_elements"] = self._network_elements\n        summary["list_of_species"] = self._network_species\n', "new": '        for grp, names in {"elements": self._network_elements, "species": self._network_species}.items():\n            summary[f"list_of_{grp}"] = names\n'},
     # hardening round 4
     {"name": "writer-fills-through-helper", "edits": [
